@@ -85,4 +85,10 @@ var props = map[string]propSpec{
 		"histories: every sequence of 3 requests over (client A/B/fresh) x 2 hosts x 2 paths x client-side cookies x 9 backend Set-Cookie replies (set, overwrite, delete by Max-Age and by Expires, path- and domain-scoped, Secure/HttpOnly, two at once) through the real session handler, against one reference cookie jar per session; session-cache limit 1000 so that no session is evicted (eviction is outside the property's premise)",
 		"concurrency: 2-3 concurrent requests of the same / different / no session under all interleavings up to the preemption bound; groupcache's lru.Cache is a declared non-thread-safe object (vector-clock race detection)",
 	}},
+	"C14": {Level: "exploration", Harnesses: []harnessSpec{
+		{Name: "inject", Quick: 120, Thorough: 600},
+	}, Assume: []string{
+		"the backend is a scripted transport behind a real httputil.ReverseProxy; the baseline for 'unchanged' is the same response relayed by a plain reverse proxy",
+		"an HTML document is a response whose Content-Type media type is text/html or application/xhtml+xml (case-insensitive); whether injection must happen for a given HTML reply is not demanded, only counted",
+	}},
 }
